@@ -100,6 +100,14 @@ def check_program(item):
                             break
             except cbuild.BuildError as e:
                 res["cbuild_failed"] = res.get("cbuild_failed", 0) + 1
+    if want_c and not res["problems"]:
+        # collapse-transition-ranges only exists in the C: decide it by the exhaustive all-256-bytes single-step comparison (C06's engine) at that flag
+        from checks import c06
+        for o in (["-O0", "-fcollapse-transition-ranges"], ["-O2", "--collapsed-range-length", "1"], ["-O2", "--collapsed-range-length", "2"]):
+            r6 = c06.check_program(dict(src=src, argv=argv + o, label=label))
+            res["creplay"] += r6.get("steps", 0)
+            for p in r6.get("problems", [])[:1]:
+                res["problems"].append(dict(kind="cstep", what="%s: emitted C differs from its machine: state %s symbol %s: %s" % (" ".join(o), p["state"], p["sym"], p["what"]), opts=o, path=""))
     res["shapes"] = sorted(map(repr, res["shapes"]))
     return res
 
